@@ -1,6 +1,6 @@
 import argparse, importlib, json, os, sys, time, traceback
 from common import *
-import scratch, kani_run, verus_run, findings
+import scratch, kani_run, verus_run, findings, mutation
 
 PROPS = ["C01", "C06", "C07", "C08", "C13", "C17", "C20"]
 
@@ -139,6 +139,23 @@ def check(pid, tier, only=None):
                 pass
             records.append({"name": "unit:" + unit, "engine": "verus-unit", "status": "info", "summary": ures.get("summary"),
                             "trusted": ures.get("trusted", []), "file": ures.get("file"), "wall_s": ures.get("wall_s")})
+        # ---- thorough extras (inside the lock: they use the same verus scratch dir)
+        extras = {}
+        if tier == "thorough" and not only:
+            vac = {}
+            for unit in sorted(units):
+                pr = verus_run.vacuity_probe(unit)
+                vac[unit] = pr
+                for fid in pr["vacuous"]:
+                    if any(o["function"] == fid for o in units[unit]):
+                        broken.append("vacuity probe: %s/%s verifies with `ensures false` (contradictory precondition or assumed contract)" % (unit, fid))
+            extras["verus_vacuity_probe"] = vac
+    if tier == "thorough" and not only and not violations and not broken:
+        ms = mutation.run_for(pid)
+        extras["mutation_selftest"] = {"mutants": len(ms), "killed": sum(1 for m in ms if m["result"] == "killed"), "details": ms}
+        for m in ms:
+            if m["result"] != "killed":
+                log("MUTANT %s: %s %s (contract strength, not a violation)" % (m["result"], m["file"], m["find"][:60]))
     wall = time.time() - t0
     # ---- report
     for k in known:
@@ -150,7 +167,7 @@ def check(pid, tier, only=None):
     elif broken:
         rc = EXIT_BROKEN
     if not only:
-        write_evidence(pid, tier, seed, mod, records, violations, broken, kani_meta, wall)
+        write_evidence(pid, tier, seed, mod, records, violations, broken, kani_meta, wall, extras)
     for v in violations:
         tail = "" if v.get("reproduced") else " no-failing-input-found"
         print("VIOLATION property=%s replay=%s%s" % (pid, v["replay"], tail))
@@ -212,7 +229,7 @@ def replay(path):
     return EXIT_VIOLATION if pb["reproduced"] else (EXIT_OK if pb["passed"] else EXIT_BROKEN)
 
 
-def write_evidence(pid, tier, seed, mod, records, violations, broken, kani_meta, wall):
+def write_evidence(pid, tier, seed, mod, records, violations, broken, kani_meta, wall, extras=None):
     obl = [r for r in records if r["engine"] in ("kani", "verus")]
     complete = [r for r in obl if r.get("complete", True)]
     bounded = [r for r in obl if not r.get("complete", True)]
@@ -249,6 +266,7 @@ def write_evidence(pid, tier, seed, mod, records, violations, broken, kani_meta,
         "wall_s": round(wall, 1),
         "violations": len(violations),
     }
+    ev["coverage"].update(extras or {})
     if hasattr(mod, "extra_evidence"):
         ev["coverage"].update(mod.extra_evidence())
     os.makedirs(os.path.join(VERIF, "evidence"), exist_ok=True)
